@@ -307,13 +307,22 @@ fn solve<H: Hv>(n: u32, k: u32, st: &B2State, keep: bool, alive: &dyn Fn() -> bo
             y
         }
     };
+    let mut examined = 0u64;
     for b in 0..(1usize << c) {
+        if b % 4096 == 0 && !alive() {
+            return None;
+        }
         let (s, e) = (start[b] as usize, start[b + 1] as usize);
         for i in s..e {
             for j in i + 1..e {
                 let (a, bb) = (order[i], order[j]);
                 let x = last.h[a as usize].xor(last.h[bb as usize]).shl(c);
                 if x.zero() {
+                    examined += 1;
+                    if examined > 200_000 {
+                        // parameter sets whose index space is too small drown in duplicate candidates
+                        continue;
+                    }
                     let v = join(a, bb);
                     if all_distinct(&v) {
                         if sols.len() < 16 && !sols.contains(&v) {
@@ -1299,6 +1308,16 @@ fn main() {
             solved_instance::<u128>(&mut c, &mut rng, &it, flip_cap, false);
         }
     }
+    // the only affordable set with n > 256 (one n-bit string per BLAKE2b output): 2^23 list entries, 11 rounds
+    let h1 = args.get_u64("heavy-shards", 0);
+    if args.shard >= h1 && args.shard < h1 + args.get_u64("heavy2-shards", 0) {
+        let mut tries = 0;
+        while c.r.counter("valid_n264_k11") == 0 && tries < 2 && c.r.time_left() {
+            tries += 1;
+            let it = random_instance(&mut rng, 264, 11);
+            solved_instance::<W512>(&mut c, &mut rng, &it, flip_cap, false);
+        }
+    }
     phase_grid(&mut c, &mut rng, &args);
     phase_vectors(&mut c, &mut rng, &args, flip_cap);
     phase_random_strings(&mut c, &mut rng);
@@ -1334,7 +1353,7 @@ fn main() {
         (144, 7, 1),
     ];
     if args.tier == vh_common::Tier::Thorough {
-        sets.extend([(152, 7, 1), (80, 3, 1), (120, 5, 1), (160, 7, 1), (200, 9, 1), (272, 16, 1), (88, 3, 1), (168, 7, 1)]);
+        sets.extend([(152, 7, 1), (80, 3, 1), (120, 5, 1), (160, 7, 1), (200, 9, 1), (88, 3, 1), (168, 7, 1)]);
     }
     // debugging aid: --only-n N --only-k K restricts the solver phase to one parameter set
     if let (Some(n), Some(k)) = (args.extra.get("only-n"), args.extra.get("only-k")) {
